@@ -1,15 +1,15 @@
 SPECIFICATION Spec
 CONSTANTS
-  Signers = {1, 2}
+  Signers = {1, 2, 3}
   Hashes = {1, 2, 3}
   MaxAttrs = 2
   CandAttrs = 1
   MaxBlocks = 4
   MaxTxPerBlock = 2
-  MaxTxTotal = 2
+  MaxTxTotal = 3
   Window = 2
   GCLag = 0
-  CheckStay = TRUE
-  Deviation = "StaleKeepsNamed"
-INVARIANTS InvSound InvAdmits InvStay InvProp
+  CheckStay = FALSE
+  Deviation = "none"
+INVARIANTS InvAnswers InvStay InvProp
 CHECK_DEADLOCK FALSE
